@@ -322,65 +322,68 @@ class Minimiser:
                 if test(pages, o2):
                     opts = o2
         # C. fields of every remaining page (target last so that its tags are final)
-        order = [p for p in pages if p["uid"] != uid] + [p for p in pages if p["uid"] == uid]
-        for p in order:
-            def repl(**kw):
-                q = dict(p)
-                q.update(kw)
-                return [q if x["uid"] == p["uid"] else x for x in pages], q
+        def edit(uids, **kw):
+            return [dict(x, **kw) if x["uid"] in uids else x for x in pages]
 
-            def attempt(**kw):
-                nonlocal pages, p
-                pp, q = repl(**kw)
-                if test(pp):
-                    pages, p = pp, q
-                    return True
-                return False
+        def attempt(uids, **kw):
+            nonlocal pages
+            pp = edit(uids, **kw)
+            if pp != pages and test(pp):
+                pages = pp
+                return True
+            return False
+
+        def cur(u):
+            return next(x for x in pages if x["uid"] == u)
+
+        order = [p["uid"] for p in pages if p["uid"] != uid] + [p["uid"] for p in pages if p["uid"] == uid]
+        for u in order:
+            one = {u}
             for _pass in range(2):   # model and redirect state depend on each other (a redirect is kept whatever its model)
-                if p["model"] != "wikitext":
-                    attempt(model="wikitext")
-                if p.get("redirect") is not None:
-                    if not attempt(redirect=None, text="x"):
-                        attempt(redirect="R")
+                if cur(u)["model"] != "wikitext":
+                    attempt(one, model="wikitext")
+                if cur(u).get("redirect") is not None:
+                    if not attempt(one, redirect=None, text="x"):
+                        attempt(one, redirect="R")
+            # title / namespace: all pages of the witness that share this (title, ns) move together
+            p = cur(u)
+            group = {x["uid"] for x in pages if (x["title"], x["ns"]) == (p["title"], p["ns"])}
             pre, rest = split_title(lang, p)
             if p["ns"] != 0 and pre:
-                if attempt(ns=0, title=rest):
+                if attempt(group, ns=0, title=rest):
                     pre = ""
-            same_title = [x for x in pages if x["uid"] != p["uid"] and x["title"] == p["title"]]
-            if not same_title and rest != "P":
-                if not attempt(title=pre + "P"):
-                    if attempt(title=pre + rest.replace(":", "-").replace("/", "-")) is False:
-                        pass
-                    pre2, rest2 = split_title(lang, p)
-                    chars = _ddmin(list(rest2), lambda cs: test(repl(title=pre2 + "".join(cs))[0]), B)
-                    attempt(title=pre2 + "".join(chars))
-                    chars = _neutral(chars, "A", lambda cs: test(repl(title=pre2 + "".join(cs))[0]))
-                    attempt(title=pre2 + "".join(chars))
+            if rest != "P" and not attempt(group, title=pre + "P"):
+                chars = _ddmin(list(rest), lambda cs: test(edit(group, title=pre + "".join(cs))), B)
+                attempt(group, title=pre + "".join(chars))
+                chars = _neutral(chars, "A", lambda cs: test(edit(group, title=pre + "".join(cs))))
+                attempt(group, title=pre + "".join(chars))
+            p = cur(u)
             if p.get("redirect") is None and p["text"] != "x":
-                if not attempt(text="x"):
+                if not attempt(one, text="x"):
                     if p["ns"] == M.TEMPLATE_NS:
                         # keep the body inside the unambiguous include-tag language: whole-feature removers only
                         for fn in (lambda t: t.strip(), lambda t: re.sub(r"(?s)<!--.*?-->", "", t),
                                    lambda t: re.sub(r"(?is)<(/?)(noinclude|includeonly|onlyinclude)\s*>", r"(\1\2)", t),
                                    lambda t: re.sub(r"[&<>\"']", "-", t), lambda t: re.sub(r"[^\x00-\x7f]", "u", t),
-                                   lambda t: t.replace("\r", "")):
-                            t2 = fn(p["text"])
-                            if t2 != p["text"] and includable(t2) is not None:
-                                attempt(text=t2)
+                                   lambda t: t.replace("\r", ""), lambda t: re.sub(r"[A-Za-z0-9]+", "w", t)):
+                            t2 = fn(cur(u)["text"])
+                            if "<!--" in t2 and "-->" not in t2.split("<!--")[-1] and "<!--" not in cur(u)["text"]:
+                                continue
+                            attempt(one, text=t2)
                     else:
                         t = p["text"]
                         while len(t) > 4000 and B[0] > 0:   # halve big bodies first
                             h = len(t) // 2
-                            if test(repl(text=t[:h])[0]):
+                            if test(edit(one, text=t[:h])):
                                 t = t[:h]
-                            elif test(repl(text=t[h:])[0]):
+                            elif test(edit(one, text=t[h:])):
                                 t = t[h:]
                             else:
                                 break
-                        chars = _ddmin(list(t), lambda cs: test(repl(text="".join(cs))[0]), B)
-                        attempt(text="".join(chars))
-                        chars = _neutral(chars, "x", lambda cs: test(repl(text="".join(cs))[0]))
-                        attempt(text="".join(chars))
+                        chars = _ddmin(list(t), lambda cs: test(edit(one, text="".join(cs))), B)
+                        attempt(one, text="".join(chars))
+                        chars = _neutral(chars, "x", lambda cs: test(edit(one, text="".join(cs))))
+                        attempt(one, text="".join(chars))
         # C'. language of the dump (after pages were moved to the main namespace where possible)
         if lang != "en" and all(p["ns"] in G.nsdata("en")["names"] for p in pages):
             pp = []
